@@ -189,7 +189,8 @@ class PutEndUnit(IQBase):
     qual = 'IterableQueue.put_end'
     expected_exits = ('normal', 'raise')
     canaries = (('marker visible before its lid is applied', '        self._applied_lids.put(z)\n        self.put(None)', '        self.put(None)\n        self._applied_lids.put(z)', 'lid is applied before'),
-                ('two markers per supplier', '        self.put(None)', '        self.put(None)\n        self.put(None)', ''))
+                ('two markers per supplier', '        self.put(None)', '        self.put(None)\n        self.put(None)', ''),
+                ('a stop request does not end the wait for renew', '                        raise StopRequested', '                        pass', 'stop request ends the wait'))
 
     def setup(self, ex):
         st = St()
@@ -199,7 +200,23 @@ class PutEndUnit(IQBase):
 
     @property
     def loops(self):
-        return {0: LoopSpec(inv=lambda s, ex: z3.And(s.ghost['hand'] == 0, s.ghost['markers_put'] == 0, z3.BoolVal(True)), keep_ghost=('hand', 'markers_put', 'items_put'))}
+        sp = LoopSpec(inv=lambda s, ex: z3.And(s.ghost['hand'] == 0, s.ghost['markers_put'] == 0, z3.BoolVal(True)), keep_ghost=('hand', 'markers_put', 'items_put'))
+
+        def head(h, ex):
+            h.ghost['#polled'] = None
+            if not hasattr(self, '_orig_is_set'):
+                self._orig_is_set = self.to_stop.m_is_set
+
+                def is_set(ex2, st2, args, kwargs, node):
+                    outs = self._orig_is_set(ex2, st2, args, kwargs, node)
+                    for k, s2, v in outs:
+                        s2.ghost['#polled'] = v
+                    return outs
+                self.to_stop.m_is_set = is_set
+        sp.at_head = head
+        sp.on_backedge = lambda s, ex: ex.oblige(s, 'iteration (waiting for renew): before waiting another second the stop event was polled and found clear -- a stop request ends the wait with StopRequested within the interval',
+                                                 z3.Not(s.ghost['#polled']) if s.ghost.get('#polled') is not None else z3.BoolVal(False))
+        return {0: sp}
 
     def post(self, ex, outs):
         for k, s, p in outs:
